@@ -51,7 +51,7 @@ class _Timeout(BaseException):
 
 ST: "_State | None" = None  # current path state (symbolic runs only)
 
-QUERY_TIMEOUT_MS = 20000
+QUERY_TIMEOUT_MS = 60000
 
 
 class _State:
